@@ -248,7 +248,14 @@ class Check:
             thms = re.findall(r"^\s*(?:Theorem|Corollary)\s+(\w+)", src_nc, flags=re.M)
             self.obligations += len(thms)
             out_vo = f"{VERIF}/build/props/{os.path.basename(rel)}o"
-            rc, out, err = _sh(f"timeout 900 coqc -w -all -Q . GV -o {out_vo} {rel}", cwd=COQ, timeout=1000)
+            for attempt in range(3):
+                rc, out, err = _sh(f"timeout 900 coqc -w -all -Q . GV -o {out_vo} {rel}", cwd=COQ, timeout=1000)
+                # killed by the kernel (memory pressure from other jobs) or by the time limit without a Coq error: not a
+                # verdict about the proof - wait and try again (a genuine failure prints 'Error:')
+                if rc in (0, 1) or "Error:" in err or attempt == 2:
+                    break
+                self.notes.append(f"coqc on {rel} was killed (rc={rc}); retried")
+                time.sleep(30)
             if rc != 0:
                 m = re.search(r'line (\d+), characters', err)
                 ln = int(m.group(1)) if m else 0
@@ -331,18 +338,30 @@ class Check:
         if self.cur is not None:
             rp.setdefault("stream", self.cur[0])
             rp.setdefault("case", self.cur[1])
+            if len(self.cur) > 2 and self.cur[2] != self.cur[1]:
+                rp.setdefault("rng_case", self.cur[2])
         self.failures.append(Failure(key, what, rp, layer))
 
     def run_stream(self, name, fn, count, only=None):
         """fn(chk, i, rng) runs case i of the stream.  Harness/implementation exceptions that the case
         does not handle itself are failures of the correspondence."""
+        orig = max(count, 1)
         if getattr(self, "tie_lost", False) and self.tier == "quick":
             count *= 3   # the regenerated tie is gone: search the correspondence three times as deep
         idxs = range(count) if only is None else [only]
-        for i in idxs:
-            self.cur = (name, i)
+        rng_only = None
+        if only is not None and self.replay_path:
             try:
-                fn(self, i, self.rng(name, i))
+                rng_only = json.load(open(self.replay_path))["input"].get("rng_case")
+            except Exception:  # noqa
+                rng_only = None
+        for i in idxs:
+            # extra rounds re-use the case numbers (finite corpora stay in range) with fresh random draws
+            eff = i if (i < orig or only is not None) else i % orig
+            ri = rng_only if (only is not None and rng_only is not None) else i
+            self.cur = (name, eff, ri)
+            try:
+                fn(self, eff, self.rng(name, ri))
             except Exception as e:  # noqa
                 tb = traceback.format_exc(limit=6)
                 self.fail(f"{name}:exception:{type(e).__name__}", f"unhandled {type(e).__name__}: {e}", {"traceback": tb}, layer="L2")
